@@ -154,6 +154,11 @@ func Solve(f *FuncVC, opts SolveOpts) []*Verdict {
 			sem <- struct{}{}
 			defer func() { <-sem }()
 			verdicts[i] = raceOne(f, f.Obligs[i], verdicts[i], opts)
+			if verdicts[i].Status == "unknown" && !f.Obligs[i].IsCover {
+				if v := splitByPaths(f, f.Obligs[i], opts); v != nil {
+					verdicts[i] = v
+				}
+			}
 		}(i)
 	}
 	wg.Wait()
@@ -164,6 +169,9 @@ func raceOne(f *FuncVC, o *Oblig, first *Verdict, opts SolveOpts) *Verdict {
 	script := f.ScriptOne(o, opts.TimeoutMs*2)
 	file := writeScript(opts.WorkDir, sanitizeFile(f.Name)+"_one", script)
 	defer os.Remove(file)
+	if kd := os.Getenv("GCV_KEEP"); kd != "" {
+		os.WriteFile(kd+"/"+sanitizeFile(o.Name)+".smt2", []byte(script), 0o644)
+	}
 	type res struct {
 		solver string
 		status string
@@ -228,4 +236,71 @@ func sanitizeFile(s string) string {
 		}
 		return '_'
 	}, s)
+}
+
+// reachDisjuncts: if the reach condition of o is a symbol defined as a top-level disjunction of path conditions
+// (the merged exit of a function with several returns, a join point), its disjuncts.
+func reachDisjuncts(f *FuncVC, o *Oblig) []string {
+	sym := strings.TrimSpace(o.Reach)
+	if sym == "" || strings.ContainsAny(sym, " ()") {
+		return nil
+	}
+	prefix := "(define-fun " + sym + " () Bool (or "
+	for _, l := range f.Lines {
+		t := strings.TrimSpace(l)
+		if !strings.HasPrefix(t, prefix) || !strings.HasSuffix(t, "))") {
+			continue
+		}
+		body := t[len(prefix) : len(t)-2]
+		var out []string
+		depth, start, inBar := 0, 0, false
+		for i := 0; i <= len(body); i++ {
+			if i == len(body) || (body[i] == ' ' && depth == 0 && !inBar) {
+				if i > start {
+					out = append(out, body[start:i])
+				}
+				start = i + 1
+				continue
+			}
+			switch {
+			case body[i] == '|':
+				inBar = !inBar
+			case inBar:
+			case body[i] == '(':
+				depth++
+			case body[i] == ')':
+				depth--
+			}
+		}
+		if depth != 0 || inBar || len(out) < 2 {
+			return nil
+		}
+		return out
+	}
+	return nil
+}
+
+// splitByPaths proves "reach => goal" by cases over the disjuncts of reach (reach is by definition EQUAL to their
+// disjunction, so the obligation holds iff it holds under every disjunct). Used only after the merged query came back
+// unknown; a definite `sat` under one disjunct is a counterexample of the original query as well.
+func splitByPaths(f *FuncVC, o *Oblig, opts SolveOpts) *Verdict {
+	ds := reachDisjuncts(f, o)
+	if ds == nil {
+		return nil
+	}
+	var total int64
+	for _, d := range ds {
+		o2 := *o
+		o2.Reach = d
+		v := raceOne(f, &o2, nil, opts)
+		total += v.Ms
+		if v.Status == "unsat" {
+			continue
+		}
+		if v.Status == "sat" {
+			return &Verdict{Oblig: o, Status: "sat", Solver: v.Solver + "/path-split", Ms: total, Output: v.Output}
+		}
+		return nil
+	}
+	return &Verdict{Oblig: o, Status: "unsat", Solver: "path-split", Ms: total}
 }
